@@ -269,3 +269,24 @@ Proof.
   (* both cannot be more specific than the other *)
   exfalso. clear -Hs E. revert E Hs. generalize (r_tmpl b) as tb. induction (r_tmpl a) as [|[l|v] ta IH]; intros [|[l'|v'] tb] E Hs; simpl in *; try discriminate; eauto.
 Qed.
+
+(** * The router knows a variable under the name of the path template only. *)
+Lemma match_binds_the_template_names : forall t path b, match_template t path = Some b -> map fst b = vars t.
+Proof.
+  induction t as [|[l|v] t IH]; intros [|s p] b H; simpl in H; try discriminate.
+  - inversion H. reflexivity.
+  - destruct (String.eqb l s); [|discriminate]. simpl. eapply IH. exact H.
+  - destruct (String.eqb s ""); [discriminate|].
+    destruct (match_template t p) as [b'|] eqn:E; [|discriminate]. inversion H; subst.
+    simpl. f_equal. eapply IH. exact E.
+Qed.
+
+Theorem asked_under_another_name_nothing_found : forall t path b w,
+  match_template t path = Some b -> ~ In w (vars t) -> lookup b w = None.
+Proof.
+  intros t path b w H Hw. apply match_binds_the_template_names in H. rewrite <- H in Hw. clear H.
+  unfold lookup. induction b as [|[k x] b IH]; [reflexivity|]. simpl.
+  destruct (String.eqb k w) eqn:E.
+  - apply String.eqb_eq in E. subst. exfalso. apply Hw. left. reflexivity.
+  - apply IH. intro Hin. apply Hw. right. exact Hin.
+Qed.
